@@ -347,7 +347,9 @@ func (c *L2Client) readLoop() {
 			continue
 		}
 		var b []byte
-		c.ws.SetReadDeadline(time.Now().Add(200 * time.Millisecond))
+		// (a deadline that expires in the middle of a large frame loses the stream position: the deadline is long, a
+		// reader is stopped by closing the connection)
+		c.ws.SetReadDeadline(time.Now().Add(30 * time.Second))
 		err := websocket.Message.Receive(c.ws, &b)
 		if err != nil {
 			if ne, ok := err.(interface{ Timeout() bool }); ok && ne.Timeout() {
